@@ -459,6 +459,18 @@ func forkSwitchCrash(w *World, rep *verifutil.Report, r *verifutil.Rng, sc, at i
 			recoverAndCheck(w, rep, scenario, phase, k, surviving, head, feed, refv)
 		} else {
 			rep.Count("fork_switch_restarted_on_own_branch", 1)
+			// still on its own branch: it must be able to simply go on with the next block of that branch ...
+			if at < len(w.Blocks) && r2.Head().Height() == head {
+				if r3, err := tmpReplica(w, w.God, CloneDB(surviving), "restarted-own-branch"); err == nil {
+					var e error
+					if p, _ := verifutil.Catch(func() { e = r3.Chain.AddBlock(w.Blocks[at], nil, r3.Stats) }); p != nil || e != nil {
+						rep.Violation("recovered-node-refuses-next-block:"+scenario+":"+phase+":own-branch", fmt.Sprintf("%s crashed at write %d (%s): restarted on its own branch at %d, the next block of that branch is refused: %v %v", scenario, k, phase, head, p, e), nil)
+						continue
+					}
+					rep.Count("own_branch_continuations_after_crash", 1)
+				}
+			}
+			// ... and to go through the fork resolution again
 			rr := consensus.NewForkResolver(nil, nil, r2.Chain, r2.Stats)
 			if err := rr.VerifProcessBlocks(fork); err != nil || !rr.HasLoadedFork() {
 				rep.Violation("recovered-node-refuses-fork:"+phase+":"+ErrClass(err), fmt.Sprintf("%s crashed at write %d (%s): restarted on its own branch at %d, the same valid fork is now refused: %v", scenario, k, phase, r2.Head().Height(), err), nil)
